@@ -37,7 +37,26 @@ TDump == /\ IsEvent("dump")
               /\ SameValues(p.layers, Log[l].reloaded)
          /\ UNCHANGED kase
 
-TNext == TGolden \/ TDump
+\* {e:"huge", layers (types + configurations, array data omitted), prefix, suffix, kbytes, rbytes, wfile, wother, samples}:
+\* a dump of 10^5..10^6 vectors.  The limbs before and after the payload must be exactly what the grammar puts around a
+\* payload of that count; the total length must be the grammar's; every sampled scalar must be in memory what is in the file
+\* (same precision) and Widen / Narrow of it (other precision).
+THuge == /\ IsEvent("huge")
+         /\ Log[l].odd = 0
+         /\ LET L == Log[l].layers
+                a == CHOOSE i \in 1..Len(L) : L[i].k = "array"
+                payloadLimbs == L[a].count * L[a].m * L[a].w
+                total == Len(Log[l].prefix) + Len(Log[l].suffix) + payloadLimbs          \* in limbs (2 bytes each)
+            IN /\ Ser(L) = Log[l].prefix \o Log[l].suffix
+               /\ Log[l].wfile = L[a].w
+               /\ total = 512 * Log[l].kbytes + (Log[l].rbytes \div 2)
+               /\ \A i \in 1..Len(Log[l].samples) :
+                    LET sm == Log[l].samples[i] IN
+                      /\ sm.same = sm.file
+                      /\ sm.other = Convert(sm.file, Log[l].wfile, Log[l].wother)
+         /\ UNCHANGED kase
+
+TNext == TGolden \/ TDump \/ THuge
 TSpec == TInit /\ [][TNext]_tvars
 Accepted == IF TLCGet("stats").diameter - 1 = Len(Log)
             THEN TRUE
